@@ -153,15 +153,19 @@ CHECKS["C10"] = {
 }
 CHECKS["C13"] = {
     "level": "proof",
-    "text": "Kernel-checked data round trips _set_data(_get_data()) per model (DataSaver incl. extra_data over any child, "
-            "AverageLearner moments, SequenceLearner, Learner1D as listed in the evidence). Restore-bisimilarity beyond the data "
-            "(same loss, same next suggestions) is NOT proved in Lean and LearnerND / IntegratorLearner / AverageLearner1D have no "
-            "model of their persistence: there the deciding part is the search (listed as partial). Search: real save/load (gzip "
-            "on/off), pickle, cloudpickle, copy_from for 19 learner kinds after histories ending with no pending points; data exactly, "
-            "loss and next ask(1)/ask(3) exactly (pickles) or to 1e-9 (file/copy).",
+    "text": "Kernel-checked per model: data round trips _set_data(_get_data()) (DataSaver incl. extra_data over any child, "
+            "AverageLearner moments, SequenceLearner, Learner1D) and RESTORE-BISIMILARITY for Learner1D with exact recomputation and for "
+            "AverageLearner: after a history that ends with no pending points the restored learner and the original agree on every "
+            "observable (both loss tables, loss(), ask(n) for every n) after EVERY common continuation of asks, tells, batches, pending "
+            "marks and discards (l1d_restore_bisimilar, l1d_same_content_bisimilar, avg_restore_bisimilar; the 'no pending points' "
+            "proviso is necessary - kernel-checked counterexamples). LearnerND / IntegratorLearner / AverageLearner1D / Learner2D have no "
+            "model of their persistence: there the deciding part is the search (listed as partial). Search: real save/load (gzip on/off), "
+            "pickle, cloudpickle, copy_from for 19 learner kinds after histories ending with no pending points (incl. very early saves); "
+            "data exactly, loss and next asks exactly (pickles) or to 1e-9 (file/copy).",
     "design_ref": "DESIGN.md section 6 C13",
     "note": "Trusted: Lean kernel, standard axioms; cloudpickle/gzip byte formats; models tied to the code by the lock-step checks. "
-            "One recorded finding (Learner1D restored while a domain end point has no value normalises x by the data hull).",
+            "Recorded findings: Learner2D's suggestion stack is not carried by file / copy_from restores; the integrator's loss sum "
+            "differs in the last bit after unpickling. The former Learner1D finding (restore with an unevaluated bound) is repaired (1cb5cb1).",
     "technique": T,
 }
 CHECKS["C11"] = {
